@@ -75,10 +75,7 @@ func setLimits() {
 	}
 }
 
-var (
-	gcBallast []byte
-	profiling bool
-)
+var profiling bool
 
 type witness struct {
 	Entry    string `json:"entry"`
